@@ -163,7 +163,7 @@ def audit(pid, module, theorems, extra_imports=None):
     out = p.stdout + p.stderr
     res = {}
     # parse: "'name' depends on axioms: [a, b]" or "'name' does not depend on any axioms"
-    blocks = re.findall(r"'([^']+)' (depends on axioms: \[([^\]]*)\]|does not depend on any axioms)", out)
+    blocks = re.findall(r"'(\S+)' (depends on axioms: \[([^\]]*)\]|does not depend on any axioms)", out)
     for name, _, axs in blocks:
         ax = set(a.strip() for a in axs.replace("\n", " ").split(',') if a.strip())
         res[name] = (ax <= STD_AXIOMS, sorted(ax))
@@ -350,8 +350,8 @@ def write_evidence(pid, ev):
     return path
 
 
-def theorems_in(files, namespace):
-    """public theorem names declared in the given Props files (relative to lean/Flowdyn/Props)"""
+def theorems_in(files, namespace=None):
+    """fully qualified public theorem names declared in the given Props files (namespace nesting tracked)"""
     names = []
     for f in files:
         path = os.path.join(LEAN_DIR, 'Flowdyn', 'Props', f)
@@ -360,7 +360,16 @@ def theorems_in(files, namespace):
         except OSError:
             continue
         txt = re.sub(r'/-.*?-/', '', txt, flags=re.S)
-        for m in re.finditer(r'^(private\s+)?theorem\s+([A-Za-z_][A-Za-z0-9_\.\']*)', txt, re.M):
-            if not m.group(1):
-                names.append(namespace + '.' + m.group(2))
+        stack = []
+        for line in txt.split("\n"):
+            line = line.split('--')[0]
+            m = re.match(r'^\s*namespace\s+([A-Za-z_][A-Za-z0-9_\.]*)', line)
+            if m:
+                stack.append(m.group(1)); continue
+            m = re.match(r'^\s*end\s+([A-Za-z_][A-Za-z0-9_\.]*)', line)
+            if m and stack and stack[-1] == m.group(1):
+                stack.pop(); continue
+            m = re.match(r'^(private\s+)?theorem\s+([A-Za-z_][A-Za-z0-9_\.\']*)', line)
+            if m and not m.group(1):
+                names.append(".".join(stack + [m.group(2)]))
     return names
